@@ -34,7 +34,7 @@ def replay_file(mod, prop, path):
     forces = {int(t): {bn[k]: v for k, v in dd.items()} for t, dd in d["forces"].items()}
     rows = cosim.real_run(tr, stim, sched, init_state=init, forces=forces)
     ob = d["obligation"]
-    sig = h.bad.get(ob) or h.witness.get(ob)
+    sig = h.bad[ob] if ob in h.bad else h.witness.get(ob)
     hit = [t for t in range(len(rows)) if rows[t][sig] == 1]
     show = [s for s in (h.show or sorted(tr.free, key=lambda s: s.duid)[:8]) if s in tr.allsigs]
     for t in range(len(rows)):
